@@ -46,6 +46,7 @@ type Obligation struct {
 }
 
 type Engine struct {
+	havocSeq int
 	P          *Program
 	C          *Ctx
 	Obls       []*Obligation
